@@ -366,6 +366,12 @@ func (r *tileHashReader) ReadHashes(indexes []int64) ([]Hash, error) {
 		}
 	}
 
+	if len(stx) == 0 {
+		// Empty tree: it has no stored hashes, so every index was rejected above,
+		// and there is nothing to fetch or authenticate.
+		return make([]Hash, len(indexes)), nil
+	}
+
 	// Fetch all the tile data.
 	data, err := r.tr.ReadTiles(tiles)
 	if err != nil {
